@@ -12,7 +12,8 @@ VARIABLES i, storedGen, last, pre, failed     \* failed: refresh attempts the pr
 vars == <<i, storedGen, last, pre, failed>>
 
 NoEvent == [kind |-> "none", r |-> 0, gen |-> -1, ok |-> FALSE, served |-> 0, calls |-> 0, n |-> 0, status |-> 0, cleared |-> FALSE,
-            panic |-> FALSE, mode |-> "none", stale |-> FALSE, lockExpires |-> FALSE, eid |-> 0, trace |-> 0]
+            panic |-> FALSE, mode |-> "none", stale |-> FALSE, lockExpires |-> FALSE, eid |-> 0, trace |-> 0,
+            signout |-> FALSE, signedOut |-> FALSE, lateOk |-> FALSE]
 Init == i = 1 /\ storedGen = 0 /\ last = NoEvent /\ pre = 0 /\ failed = 0
 
 Consume ==
@@ -39,11 +40,15 @@ Served  == last.kind = "done" /\ last.ok
 \* provider refuses, the request falls back to re-validation and is rightly honoured with the tokens it holds (Refresh!validated).
 Mon_NoStaleServe == (Served /\ last.stale /\ Working) => (last.gen >= 1 \/ (last.lockExpires /\ failed > 0))
 \* whoever is served carries what is stored: the new tokens
-Mon_NewTokens    == (Served /\ Working /\ ~last.lockExpires) => last.gen = pre
+\* (signout: one of the behaviour's requests is a sign-out - what is stored then legitimately disappears under the others)
+Mon_NewTokens    == (Served /\ Working /\ ~last.lockExpires /\ ~last.signout) => last.gen = pre
 \* later requests carry the new tokens too
-Mon_Late         == (last.kind = "late" /\ Working /\ ~last.lockExpires) => (last.ok /\ last.gen = pre)
+Mon_Late         == (last.kind = "late" /\ Working /\ ~last.lockExpires /\ ~last.signout) => (last.ok /\ last.gen = pre)
 \* exactly one refresh at the provider, everybody served
-Mon_OneRefresh   == (last.kind = "end" /\ Working /\ last.stale /\ ~last.lockExpires) => (last.calls = 1 /\ last.served = last.n)
+Mon_OneRefresh   == (last.kind = "end" /\ Working /\ last.stale /\ ~last.lockExpires /\ ~last.signout) => (last.calls = 1 /\ last.served = last.n)
+\* C11 under concurrency (Refresh!SignedOutStays): a sign-out was answered with the success redirect and everything in flight has
+\* finished - the stored session is gone and the browser's cookie no longer authenticates
+Mon_SignedOut    == (last.kind = "end" /\ last.signedOut /\ ~last.lockExpires) => (~last.ok /\ ~last.lateOk)
 \* neither refresh nor validation succeeds: unauthenticated, cookie cleared
 Mon_FailClosed   == (last.mode = "failinvalid" /\ last.stale) =>
                        /\ (last.kind = "done" => (~last.ok /\ last.cleared))
